@@ -1,7 +1,8 @@
 import TomlVerif.Model.Numbers
+import TomlVerif.Lemmas.Numbers11
 /-! # C11 — numbers are lossless or rejected, never wrapped, saturated or rounded away -/
 namespace TomlVerif.Props.C11
-open TomlVerif TomlVerif.Spec TomlVerif.Model.Numbers
+open TomlVerif TomlVerif.Spec TomlVerif.Model.Numbers TomlVerif.Lemmas.Numbers11
 
 theorem ite_ok_cut {c : Bool} {v n : Int} {r rest : Bytes}
     (h : (if c = true then Res.ok v r else Res.cut) = Res.ok n rest) : c = true ∧ v = n := by
@@ -54,5 +55,263 @@ theorem T11_float_finite (s rest : Bytes) (l : FloatLit) (b : Nat) (h : floatLit
 
 example : integer [0x30, 0x78, 0x37, 0x66] = .ok 127 [] := by decide
 example : float [0x2D, 0x31, 0x65, 0x39, 0x39, 0x39] = .cut := by decide +kernel
+
+/-! ## Integer literals: the writer round-trips, signs and underscores never change the value,
+    out-of-range literals are rejected (definitions `signBytes`, `joinU`, `GoodGroups`, `NoLeadingZero`,
+    `Stops`, `NoRadix`, `decValue`, `FloatStops`, `dispBytes` are in `Lemmas/Numbers11.lean`) -/
+
+/-- what may follow an integer literal so that it ends there: end of input, or a byte that is not a digit,
+    not `_`, and not one of the radix letters `x` `o` `b` (which after a lone `0` would switch the parser
+    to a prefixed literal) -/
+def IntFollow : Bytes → Prop
+  | [] => True
+  | b :: _ => isDigit b = false ∧ b ≠ 0x5F ∧ b ≠ 0x78 ∧ b ≠ 0x6F ∧ b ≠ 0x62
+
+instance : (t : Bytes) → Decidable (IntFollow t)
+  | [] => isTrue trivial
+  | b :: _ => inferInstanceAs (Decidable (isDigit b = false ∧ b ≠ 0x5F ∧ b ≠ 0x78 ∧ b ≠ 0x6F ∧ b ≠ 0x62))
+
+theorem IntFollow.stops {rest : Bytes} (h : IntFollow rest) : Stops isDigit rest := by
+  cases rest with
+  | nil => trivial
+  | cons b r => exact ⟨h.1, h.2.1⟩
+
+theorem IntFollow.noRadix {rest : Bytes} (h : IntFollow rest) : NoRadix rest := by
+  cases rest with
+  | nil => trivial
+  | cons b r => exact h.2.2
+
+/-- sharp form: the radix letters only matter after the literal `0` -/
+theorem T11_int_roundtrip_sharp (n : Int) (hn : inI64 n = true) (rest : Bytes) (hs : Stops isDigit rest)
+    (hr : n = 0 → NoRadix rest) : integer (writeInt n ++ rest) = .ok n rest :=
+  integer_writeInt n hn rest hs hr
+
+/-- every i64 prints as a decimal literal that the integer parser reads back exactly, in any context
+    that does not extend the literal -/
+theorem T11_int_roundtrip_follow (n : Int) (hn : inI64 n = true) (rest : Bytes) (hf : IntFollow rest) :
+    integer (writeInt n ++ rest) = .ok n rest :=
+  integer_writeInt n hn rest hf.stops (fun _ => hf.noRadix)
+
+/-- every i64 prints as a decimal literal that the integer parser reads back exactly -/
+theorem T11_int_roundtrip (n : Int) (hn : inI64 n = true) : integer (writeInt n) = .ok n [] := by
+  have := T11_int_roundtrip_follow n hn [] trivial
+  simpa using this
+
+/-- the decimal digits the writer prints: non-empty, all digits, no leading zero, of value `n` -/
+theorem T11_natDigits (n : Nat) : natDigits n ≠ [] ∧ AllB isDigit (natDigits n) ∧
+    natOfDigitsBase 10 (natDigits n) = n ∧ (∀ t, natDigits n = 0x30 :: t → n = 0 ∧ t = []) :=
+  natDigits_spec n
+
+/-- sharp form of `T11_dec_literal`: the radix letters only matter after an unsigned lone `0` -/
+theorem T11_dec_literal_sharp (sign : Option Bool) (groups : List Bytes) (rest : Bytes)
+    (hg : GoodGroups isDigit groups) (hz : NoLeadingZero groups) (hs : Stops isDigit rest)
+    (hr : sign = none → groups = [[0x30]] → NoRadix rest) :
+    integer (signBytes sign ++ joinU groups ++ rest) =
+      if inI64 (decValue sign groups) then .ok (decValue sign groups) rest else .cut :=
+  integer_dec_lit sign groups rest hg hz hs hr
+
+/-- a decimal literal `[+-]? g0 _ g1 _ …` has the signed positional value of its digits (underscores and
+    signs never change the value) when that is an i64, and is rejected with a committed error otherwise
+    (never wrapped or saturated) -/
+theorem T11_dec_literal (sign : Option Bool) (groups : List Bytes) (rest : Bytes)
+    (hg : GoodGroups isDigit groups) (hz : NoLeadingZero groups) (hf : IntFollow rest) :
+    integer (signBytes sign ++ joinU groups ++ rest) =
+      if inI64 (decValue sign groups) then .ok (decValue sign groups) rest else .cut :=
+  integer_dec_lit sign groups rest hg hz hf.stops (fun _ _ => hf.noRadix)
+
+/-- `joinU` is `intercalate "_"` -/
+theorem T11_joinU_intercalate (groups : List Bytes) : joinU groups = List.intercalate [0x5F] groups :=
+  joinU_eq_intercalate groups
+
+theorem inI64_natCast (v : Nat) : inI64 (v : Int) = decide ((v : Int) ≤ i64Max) := by
+  unfold inI64 i64Min i64Max
+  by_cases h : (v : Int) ≤ 9223372036854775807
+  · simp [h]
+  · simp [h]
+
+/-- `0x…` literals (both letter cases, underscores): positional value in base 16, or a committed error above `i64::MAX` -/
+theorem T11_hex_literal (groups : List Bytes) (rest : Bytes) (hg : GoodGroups isHexdig groups)
+    (hs : Stops isHexdig rest) :
+    integer (0x30 :: 0x78 :: (joinU groups ++ rest)) =
+      if ((natOfDigitsBase 16 groups.flatten : Nat) : Int) ≤ i64Max
+      then .ok ((natOfDigitsBase 16 groups.flatten : Nat) : Int) rest else .cut := by
+  rw [integer_hex, prefixedInt_lit isHexdig 16 isHexdig_under groups rest hg hs, inI64_natCast]
+  simp
+
+/-- `0o…` literals -/
+theorem T11_oct_literal (groups : List Bytes) (rest : Bytes) (hg : GoodGroups isDigit0_7 groups)
+    (hs : Stops isDigit0_7 rest) :
+    integer (0x30 :: 0x6F :: (joinU groups ++ rest)) =
+      if ((natOfDigitsBase 8 groups.flatten : Nat) : Int) ≤ i64Max
+      then .ok ((natOfDigitsBase 8 groups.flatten : Nat) : Int) rest else .cut := by
+  rw [integer_oct, prefixedInt_lit isDigit0_7 8 isDigit0_7_under groups rest hg hs, inI64_natCast]
+  simp
+
+/-- `0b…` literals -/
+theorem T11_bin_literal (groups : List Bytes) (rest : Bytes) (hg : GoodGroups isDigit0_1 groups)
+    (hs : Stops isDigit0_1 rest) :
+    integer (0x30 :: 0x62 :: (joinU groups ++ rest)) =
+      if ((natOfDigitsBase 2 groups.flatten : Nat) : Int) ≤ i64Max
+      then .ok ((natOfDigitsBase 2 groups.flatten : Nat) : Int) rest else .cut := by
+  rw [integer_bin, prefixedInt_lit isDigit0_1 2 isDigit0_1_under groups rest hg hs, inI64_natCast]
+  simp
+
+/-- the three prefixed forms at once -/
+theorem T11_prefixed_literal (groups : List Bytes) (rest : Bytes) :
+    (GoodGroups isHexdig groups → Stops isHexdig rest →
+      integer ([0x30, 0x78] ++ joinU groups ++ rest) =
+        if ((natOfDigitsBase 16 groups.flatten : Nat) : Int) ≤ i64Max
+        then .ok ((natOfDigitsBase 16 groups.flatten : Nat) : Int) rest else .cut) ∧
+    (GoodGroups isDigit0_7 groups → Stops isDigit0_7 rest →
+      integer ([0x30, 0x6F] ++ joinU groups ++ rest) =
+        if ((natOfDigitsBase 8 groups.flatten : Nat) : Int) ≤ i64Max
+        then .ok ((natOfDigitsBase 8 groups.flatten : Nat) : Int) rest else .cut) ∧
+    (GoodGroups isDigit0_1 groups → Stops isDigit0_1 rest →
+      integer ([0x30, 0x62] ++ joinU groups ++ rest) =
+        if ((natOfDigitsBase 2 groups.flatten : Nat) : Int) ≤ i64Max
+        then .ok ((natOfDigitsBase 2 groups.flatten : Nat) : Int) rest else .cut) := by
+  refine ⟨fun hg hs => ?_, fun hg hs => ?_, fun hg hs => ?_⟩
+  · simpa using T11_hex_literal groups rest hg hs
+  · simpa using T11_oct_literal groups rest hg hs
+  · simpa using T11_bin_literal groups rest hg hs
+
+/-- hex digits are case-insensitive: an upper-case letter has the value of its lower-case form -/
+theorem T11_hex_case : ∀ b : Byte, inR 0x41 0x46 b = true →
+    isHexdig (b + 0x20) = true ∧ digitVal (b + 0x20) = digitVal b ∧ digitVal b = b.toNat - 0x41 + 10 :=
+  forall_byte (by decide +kernel)
+
+/-- lower-case form of a hex digit -/
+def hexLower (b : Byte) : Byte := if inR 0x41 0x46 b then b + 0x20 else b
+
+theorem digitVal_hexLower : ∀ b : Byte, digitVal (hexLower b) = digitVal b ∧ (isHexdig b = true → isHexdig (hexLower b) = true) :=
+  forall_byte (by decide +kernel)
+
+/-- the value of a hex digit string does not depend on letter case -/
+theorem T11_hex_case_insensitive (ds : Bytes) :
+    natOfDigitsBase 16 (ds.map hexLower) = natOfDigitsBase 16 ds := by
+  simp [natOfDigitsBase, List.foldl_map, (digitVal_hexLower _).1]
+
+/-! ## Floats -/
+
+/-- a float literal always has all-digit parts, a non-empty integer part, and a fraction or an exponent -/
+theorem T11_float_shape (s rest : Bytes) (l : FloatLit) (h : floatLit s = .ok l rest) :
+    l.intDigits ≠ [] ∧ AllB isDigit l.intDigits ∧ AllB isDigit l.fracDigits ∧ AllB isDigit l.expDigits ∧
+    (l.fracDigits ≠ [] ∨ l.expDigits ≠ []) :=
+  (floatLit_shape s rest l h).2
+
+/-- wherever both `float` and `integer` succeed on the same input, `float` consumes strictly more -/
+theorem T11_float_consumes_more (s rest rest' : Bytes) (b : Nat) (n : Int) (hf : float s = .ok b rest)
+    (hi : integer s = .ok n rest') : rest.length < rest'.length :=
+  float_integer_rest s rest rest' b n hf hi
+
+/-- `integer` and `float` never both succeed consuming the same whole input -/
+theorem T11_float_integer_disjoint (s : Bytes) (b : Nat) (n : Int) (hf : float s = .ok b []) :
+    integer s ≠ .ok n [] := by
+  intro hi
+  have := float_integer_rest s [] [] b n hf hi
+  simp at this
+
+/-- the float writer's token for a finite non-zero value lexes as a float literal, consuming everything, with
+    exactly the digits `Display` printed (and fraction `0` appended when there was none) -/
+theorem T11_writeFloat_is_float_follow (neg negD : Bool) (intDs : Bytes) (frac : Option Bytes) (rest : Bytes)
+    (hne : intDs ≠ []) (hi : AllB isDigit intDs) (hz : ∀ t, intDs = 0x30 :: t → t = [])
+    (hf : ∀ f, frac = some f → f ≠ [] ∧ AllB isDigit f) (hs : FloatStops rest) :
+    floatLit (writeFloat neg false false (!(dispBytes negD intDs frac).contains 0x2E) (dispBytes negD intDs frac) ++ rest) =
+      .ok ⟨negD, intDs, frac.getD [0x30], false, []⟩ rest :=
+  floatLit_writeFloat neg negD intDs frac rest hne hi hz hf hs
+
+theorem T11_writeFloat_is_float (neg negD : Bool) (intDs : Bytes) (frac : Option Bytes)
+    (hne : intDs ≠ []) (hi : AllB isDigit intDs) (hz : ∀ t, intDs = 0x30 :: t → t = [])
+    (hf : ∀ f, frac = some f → f ≠ [] ∧ AllB isDigit f) :
+    floatLit (writeFloat neg false false (!(dispBytes negD intDs frac).contains 0x2E) (dispBytes negD intDs frac)) =
+      .ok ⟨negD, intDs, frac.getD [0x30], false, []⟩ [] := by
+  have := floatLit_writeFloat neg negD intDs frac [] hne hi hz hf trivial
+  simpa using this
+
+/-- … hence `float` returns the correctly rounded value of exactly those digits, or rejects an overflow -/
+theorem T11_writeFloat_float (neg negD : Bool) (intDs : Bytes) (frac : Option Bytes)
+    (hne : intDs ≠ []) (hi : AllB isDigit intDs) (hz : ∀ t, intDs = 0x30 :: t → t = [])
+    (hf : ∀ f, frac = some f → f ≠ [] ∧ AllB isDigit f) :
+    float (writeFloat neg false false (!(dispBytes negD intDs frac).contains 0x2E) (dispBytes negD intDs frac)) =
+      if Ieee.isInfBits (FloatLit.bits ⟨negD, intDs, frac.getD [0x30], false, []⟩) then .cut
+      else .ok (FloatLit.bits ⟨negD, intDs, frac.getD [0x30], false, []⟩) [] := by
+  unfold float
+  rw [T11_writeFloat_is_float neg negD intDs frac hne hi hz hf]
+
+/-- `int . frac` with underscore groups in both parts lexes with exactly those digits -/
+theorem T11_float_frac_literal (sign : Option Bool) (igroups fgroups : List Bytes) (rest : Bytes)
+    (hi : GoodGroups isDigit igroups) (hz : NoLeadingZero igroups) (hf : GoodGroups isDigit fgroups)
+    (hs : FloatStops rest) :
+    floatLit (signBytes sign ++ joinU igroups ++ 0x2E :: (joinU fgroups ++ rest)) =
+      .ok ⟨isNegSign sign, igroups.flatten, fgroups.flatten, false, []⟩ rest :=
+  floatLit_frac sign igroups fgroups rest hi hz hf hs
+
+/-- `sign? int (. frac)? [eE] sign? exp` lexes as a float with exactly those digits (underscore groups
+    everywhere; the exponent may have leading zeros) -/
+theorem T11_float_exp_literal (sign : Option Bool) (igroups : List Bytes) (frac : Option (List Bytes)) (e : Byte)
+    (esign : Option Bool) (egroups : List Bytes) (rest : Bytes)
+    (hi : GoodGroups isDigit igroups) (hz : NoLeadingZero igroups)
+    (hf : ∀ fg, frac = some fg → GoodGroups isDigit fg) (he : e = 0x65 ∨ e = 0x45)
+    (hg : GoodGroups isDigit egroups) (hs : Stops isDigit rest) :
+    floatLit (signBytes sign ++ joinU igroups ++ (fracBytes frac ++ e :: (signBytes esign ++ joinU egroups ++ rest))) =
+      .ok ⟨isNegSign sign, igroups.flatten, (frac.map List.flatten).getD [], isNegSign esign, egroups.flatten⟩ rest :=
+  floatLit_exp sign igroups frac e esign egroups rest hi hz hf he hg hs
+
+/-- the special arms of the float writer and what `float` makes of them -/
+theorem T11_float_special :
+    float (writeFloat false true false false []) = .ok Ieee.nanBits [] ∧
+    float (writeFloat true true false false []) = .ok (Ieee.signBit + Ieee.nanBits) [] ∧
+    float (writeFloat false false true true []) = .ok 0 [] ∧
+    float (writeFloat true false true true []) = .ok Ieee.signBit [] ∧
+    float (strBytes "nan") = .ok Ieee.nanBits [] ∧
+    float (strBytes "-nan") = .ok (Ieee.signBit + Ieee.nanBits) [] ∧
+    float (strBytes "0.0") = .ok 0 [] ∧
+    float (strBytes "-0.0") = .ok Ieee.signBit [] ∧
+    float (strBytes "inf") = .ok Ieee.infBits [] ∧
+    float (strBytes "-inf") = .ok (Ieee.signBit + Ieee.infBits) [] ∧
+    float (strBytes "+inf") = .ok Ieee.infBits [] := by
+  decide +kernel
+
+/-! ### non-vacuity: concrete instances -/
+
+example : integer [0x2D, 0x31, 0x5F, 0x30] = .ok (-10) [] := by decide
+-- T11_int_roundtrip at the extremes
+example : writeInt (-9223372036854775808) = strBytes "-9223372036854775808" := by decide +kernel
+example : inI64 (-9223372036854775808) = true ∧
+    integer (writeInt (-9223372036854775808)) = .ok (-9223372036854775808) [] :=
+  ⟨by decide, T11_int_roundtrip _ (by decide)⟩
+example : integer (writeInt 0 ++ [0x78, 0x31]) = .ok 1 [] := by decide +kernel  -- why `NoRadix` is needed
+example : integer (writeInt 0 ++ [0x2C]) = .ok 0 [0x2C] := T11_int_roundtrip_follow 0 (by decide) _ (by decide)
+-- T11_dec_literal: hypotheses are satisfiable, in-range and out-of-range outcomes both occur
+example : GoodGroups isDigit [[0x31, 0x32], [0x33]] ∧ NoLeadingZero [[0x31, 0x32], [0x33]] ∧ IntFollow [0x20] :=
+  ⟨⟨by simp, by intro g hg; simp at hg; rcases hg with hg | hg <;> subst hg <;> exact ⟨by simp, by decide⟩⟩,
+   by intro g0 gs h; injection h with h _; injection h with h _; exact absurd h (by decide), by decide⟩
+example : integer (signBytes (some true) ++ joinU [[0x31, 0x32], [0x33]] ++ [0x20]) = .ok (-123) [0x20] := by decide +kernel
+example : integer (strBytes "+9223372036854775807") = .ok 9223372036854775807 [] := by decide +kernel
+example : integer (strBytes "9223372036854775808") = .cut := by decide +kernel
+example : integer (strBytes "-9_223_372_036_854_775_808") = .ok (-9223372036854775808) [] := by decide +kernel
+example : integer (strBytes "-9223372036854775809") = .cut := by decide +kernel
+-- prefixed literals
+example : GoodGroups isHexdig [[0x64, 0x45], [0x41, 0x66]] ∧ Stops isHexdig [0x2C] :=
+  ⟨⟨by simp, by intro g hg; simp at hg; rcases hg with hg | hg <;> subst hg <;> exact ⟨by simp, by decide⟩⟩, by decide⟩
+example : integer (strBytes "0xdE_Af,") = .ok 0xDEAF [0x2C] := by decide +kernel
+example : integer (strBytes "0x7fff_ffff_ffff_ffff") = .ok 9223372036854775807 [] := by decide +kernel
+example : integer (strBytes "0x8000_0000_0000_0000") = .cut := by decide +kernel
+example : integer (strBytes "0o7_55") = .ok 493 [] := by decide +kernel
+example : integer (strBytes "0b1_01") = .ok 5 [] := by decide +kernel
+-- floats
+example : floatLit (strBytes "-1_0.2_5e+0_7") = .ok ⟨true, [0x31, 0x30], [0x32, 0x35], false, [0x30, 0x37]⟩ [] := by
+  decide +kernel
+example : signBytes (some true) ++ joinU [[0x31], [0x30]] ++ (fracBytes (some [[0x32], [0x35]]) ++
+    0x65 :: (signBytes (some false) ++ joinU [[0x30], [0x37]] ++ [])) = strBytes "-1_0.2_5e+0_7" := by decide +kernel
+example : natOfDigitsBase 16 (strBytes "dEaF") = 0xDEAF ∧ (strBytes "dEaF").map hexLower = strBytes "deaf" := by
+  decide +kernel
+example : float (strBytes "1.5") = .ok 0x3FF8000000000000 [] ∧ integer (strBytes "1.5") = .ok 1 [0x2E, 0x35] := by
+  decide +kernel
+example : floatLit (writeFloat false false false true (strBytes "-12")) =
+    .ok ⟨true, [0x31, 0x32], [0x30], false, []⟩ [] := by decide +kernel
+example : dispBytes true [0x30] (some [0x32, 0x35]) = strBytes "-0.25" ∧
+    floatLit (writeFloat false false false false (strBytes "-0.25")) =
+      .ok ⟨true, [0x30], [0x32, 0x35], false, []⟩ [] := by decide +kernel
 
 end TomlVerif.Props.C11
